@@ -1,6 +1,7 @@
 import Cirbo.Proofs.GenWeighted
 import Cirbo.Proofs.GenBasis
 import Cirbo.Proofs.GenPow2
+import Cirbo.Proofs.GenCostX
 /-!
 # C07 — Summation generators compute exact sums within the promised basis
 
@@ -15,7 +16,12 @@ import Cirbo.Proofs.GenPow2
 -- OBLIGATION: c07_aig_basis_sum_n_bits
 -- OBLIGATION: c07_aig_basis_weighted
 -- OBLIGATION: c07_sum_pow2_m1
--- PARTIAL: the documented gate-count bounds (4.5n-2m, 7n-3m, 5n-2m) are not proved; they are checked on the real generators by the search on every run. Termination within the model fuel (no "fuel" failure) is by correspondence. XAIG membership is immediate (every type of the regenerated table is a binary gate type: ttType_ok); weights are naturals in the model.
+-- OBLIGATION: c07_gate_count_sum_n_bits
+-- OBLIGATION: c07_gate_count_sum_n_bits_easy
+-- OBLIGATION: c07_gate_count_weighted_naive
+-- OBLIGATION: c07_gate_count_weighted_partial
+-- THOROUGH-WITNESS: Cirbo.Proofs.GenCostWitness Cirbo.weighted_xaig_documented_bound_fails
+-- PARTIAL: gate counts: the documented bounds are proved for add_sum_n_bits (4.5n-2m in XAIG, 7n-3m in AIG), add_sum_n_bits_easy (5n), add_sum_n_weighted_bits_naive (5n-2m, 7n-3m) and add_sum_n_weighted_bits in AIG (7n-3m) — in each case a slightly stronger bound, by a cost semantics of generator programs (Cost, run_cost) and potential arguments. For add_sum_n_weighted_bits in XAIG the documented 4.5n-2m is FALSE (open known finding; Proofs/GenCostWitness.lean exhibits a run of the model with n=35, m=13 and 132 gates, kernel-evaluated in the thorough tier; the harness exhibits it on the code): the theorem proved is 4.5n-1.5m (c07_gate_count_weighted_partial). add_sum_pow2_m1 documents no bound. Termination within the model fuel (no "fuel" failure) is by correspondence. XAIG membership is immediate (every type of the regenerated table is a binary gate type: ttType_ok); weights are naturals in the model.
 -/
 namespace Cirbo
 
@@ -124,6 +130,49 @@ theorem c07_sum_pow2_m1 {st st' : GSt} {ins : List Label} {out : List (List Labe
   obtain ⟨e1, e2⟩ := sem_addSumPow2M1 h3
   exact ⟨v', h1, h2, by rw [e1, cnt_congr (fun l hl => h2 l (hin l hl))], e2⟩
 
+/-! ## gate counts -/
+
+/-- **`add_sum_n_bits` stays within its documented bounds**: on any host, with `n` operands and `m`
+result bits, the call adds at most `4.5·n − 2·m` gates in XAIG (`2·new + 4·m ≤ 9·n`) and at most
+`7·n − 3·m` in AIG, however the basis is spelled -/
+theorem c07_gate_count_sum_n_bits {st st' : GSt} {ins out : List Label} {basis : BasisArg} {be : Bool}
+    (h : (addSumNBits ins basis be).run st = .ok (out, st')) :
+    ∃ new b, st'.c.gates.length = st.c.gates.length + new ∧ basis.resolve = .ok b ∧
+      (b = .xaig → 2 * new + 4 * out.length ≤ 9 * ins.length) ∧
+      (b = .aig → new + 3 * out.length ≤ 7 * ins.length) := by
+  obtain ⟨n, hc, hl⟩ := run_cost _ h
+  obtain ⟨b, hb, h1, h2⟩ := cost_addSumNBits hc
+  exact ⟨n, b, hl, hb, h1, h2⟩
+
+/-- `add_sum_n_bits_easy`: at most `5·n − 3·m` gates (documented: about `5·n`) -/
+theorem c07_gate_count_sum_n_bits_easy {st st' : GSt} {ins out : List Label} {be : Bool}
+    (h : (addSumNBitsEasy ins be).run st = .ok (out, st')) :
+    ∃ new, st'.c.gates.length = st.c.gates.length + new ∧ new + 3 * out.length ≤ 5 * ins.length := by
+  obtain ⟨n, hc, hl⟩ := run_cost _ h
+  exact ⟨n, hl, cost_addSumNBitsEasy hc⟩
+
+/-- `add_sum_n_weighted_bits_naive`: at most `5·n − 3·m` gates in XAIG (documented `5·n − 2·m`), at most
+`7·n − 4·m` in AIG (documented `7·n − 3·m`) -/
+theorem c07_gate_count_weighted_naive {st st' : GSt} {ins out : List (Nat × Label)} {basis : BasisArg}
+    (h : (addSumWeightedNaive ins basis).run st = .ok (out, st')) :
+    ∃ new b, st'.c.gates.length = st.c.gates.length + new ∧ basis.resolve = .ok b ∧
+      (b = .xaig → new + 3 * out.length ≤ 5 * ins.length) ∧ (b = .aig → new + 4 * out.length ≤ 7 * ins.length) := by
+  obtain ⟨n, hc, hl⟩ := run_cost _ h
+  obtain ⟨b, hb, h1, h2⟩ := cost_addSumWeightedNaive hc
+  exact ⟨n, b, hl, hb, h1, h2⟩
+
+/-- `add_sum_n_weighted_bits`: in AIG at most `7·n − 4·m` gates (documented `7·n − 3·m`). In XAIG the
+documented `4.5·n − 2·m` does not hold (see the header); what holds is `4.5·n − 1.5·m`
+(`2·new + 3·m ≤ 9·n`): a single bit is worth 9 half gates, a pair 16, pairing two bits, an MDFA block
+and every other block are paid from that, and each level keeps at least 3 -/
+theorem c07_gate_count_weighted_partial {st st' : GSt} {ins out : List (Nat × Label)} {basis : BasisArg}
+    (h : (addSumWeighted ins basis).run st = .ok (out, st')) :
+    ∃ new b, st'.c.gates.length = st.c.gates.length + new ∧ basis.resolve = .ok b ∧
+      (b = .xaig → 2 * new + 3 * out.length ≤ 9 * ins.length) ∧ (b = .aig → new + 4 * out.length ≤ 7 * ins.length) := by
+  obtain ⟨n, hc, hl⟩ := run_cost _ h
+  obtain ⟨b, hb, h1, h2⟩ := cost_addSumWeighted hc
+  exact ⟨n, b, hl, hb, h1, h2⟩
+
 #print axioms c07_generators_only_add_fresh_gates
 #print axioms c07_tt_table_is_correct
 #print axioms c07_sum_n_bits
@@ -136,5 +185,9 @@ theorem c07_sum_pow2_m1 {st st' : GSt} {ins : List Label} {out : List (List Labe
 #print axioms c07_aig_basis_weighted
 
 #print axioms c07_sum_pow2_m1
+#print axioms c07_gate_count_sum_n_bits
+#print axioms c07_gate_count_sum_n_bits_easy
+#print axioms c07_gate_count_weighted_naive
+#print axioms c07_gate_count_weighted_partial
 
 end Cirbo
